@@ -210,7 +210,7 @@ def gen_case(draw, tier):
 		return [k, p]
 	specQ = other(D)
 	specR = other(tuple(specQ) if specQ else D) if draw(st.booleans()) else other(D)
-	e = draw(st.sampled_from(['none', 'none', 'D', 'Q', 'R', 'other']))
+	e = draw(st.sampled_from(['none', 'none', 'D', 'Q', 'R', 'other', 'default']))
 	if e == 'none':
 		specE = None
 	elif e == 'D':
@@ -219,6 +219,8 @@ def gen_case(draw, tier):
 		specE = specQ or list(D)
 	elif e == 'R':
 		specE = specR or list(D)
+	elif e == 'default':
+		specE = [11, 'ATGAC']
 	else:
 		specE = list(draw(st.sampled_from(SPECS)))
 	return {'kind': 'cmd', 'world': w, 'specQ': specQ, 'specR': specR, 'specE': specE,
